@@ -980,18 +980,26 @@ class ExcelCompiler:
 
     def _process_gen_graph(self):
 
+        first_exc = None
         while self.graph_todos:
             # connect the dependant cells in the graph
             dependant = self.graph_todos.pop()
 
             self.log.debug(f"Handling {dependant.address}")
 
-            for precedent_address in dependant.needed_addresses:
-                if precedent_address.address not in self.cell_map:
-                    self._gen_graph(precedent_address, recursed=True)
+            try:
+                for precedent_address in dependant.needed_addresses:
+                    if precedent_address.address not in self.cell_map:
+                        self._gen_graph(precedent_address, recursed=True)
 
-                self.dep_graph.add_edge(
-                    self.cell_map[precedent_address.address], dependant)
+                    self.dep_graph.add_edge(
+                        self.cell_map[precedent_address.address], dependant)
+            except Exception as exc:
+                # keep going, the cells already made still need their edges
+                first_exc = first_exc or exc
+
+        if first_exc is not None:
+            raise first_exc
 
         # calc the values for ranges
         try:
